@@ -15,17 +15,34 @@ DEFAULTS = [
     (r'dns/(question|resource_record|packet)\.rs|dns/rdata/macros\.rs', r'(^|::)(parse|parse_rdata|parse_section)\b', r'postcondition|invariant.*|assert', {'C05'}),
     (r'dns/rdata/.*\.rs|dns/character_string\.rs', r'(^|::)(parse|parse_rdata|write_to|len|write_common|lemma_rt)\b', r'postcondition|invariant.*|assert', {'C10'}),
     (r'dns/.*\.rs', r'(^|::)(lemma_rt|lemma_det)\b', r'.*', {'C02', 'C03', 'C11'}),
+    (r'dns/.*\.rs', r'(^|::)lemma_dec_ok\b', r'.*', {'C11'}),
+    (r'dns/packet\.rs', r'(^|::)section_count\b', r'.*', {'C04'}),
     (r'dns/packet\.rs', r'(^|::)lemma_\w+', r'.*', {'C02', 'C03', 'C04', 'C11'}),
     (r'dns/rdata/opt\.rs', r'.*', r'.*', {'C09'}),
     (r'dns/header\.rs', r'(^|::)(opt_rr|extract_info_from_opt_rr)\b', r'.*', {'C09'}),
     # writers must not panic and must emit what their contract says
-    (r'dns/.*\.rs', r'(^|::)(write_to|write_common|plain_append|write_header|len|build_bytes_vec|opt_rr|get_flags)\b', r'.*', {'C04'}),
-    (r'dns/.*\.rs', r'(^|::)(write_compressed_to|compress_append|build_bytes_vec_compressed)\b', r'.*', {'C03', 'C07'}),
+    (r'dns/.*\.rs', r'(^|::)(write_to|write_common|plain_append|write_header|len|build_bytes_vec|opt_rr|get_flags)\b', r'.*', {'C04', 'C02', 'C11'}),
+    (r'dns/.*\.rs', r'(^|::)(write_compressed_to|compress_append|build_bytes_vec_compressed)\b', r'.*', {'C03', 'C07', 'C11'}),
     (r'dns/(packet|resource_record)\.rs', r'(^|::)(write_compressed_to|lemma_rr_compressed)\b', r'.*', {'C04'}),
     (r'dns/.*\.rs', r'(^|::)(fmt|try_from)\b', r'.*', {'C12'}),
     (r'dns/mod\.rs|dns/rdata/(mod|macros)\.rs', r'(^|::)(from|try_from|type_code)\b', r'.*', {'C18'}),
     (r'dns/.*\.rs', r'(^|::)(into_owned|eq|hash)\b', r'.*', {'C16'}),
     (r'vx\.rs', r'.*', r'.*', {'C02', 'C03', 'C06', 'C10'}),   # the spec library's own lemmas
+]
+
+# last resort: an obligation that neither carries a tag nor matches a rule above is never dropped, it is charged to the
+# properties its file is about
+FALLBACK = [
+    (r'dns/rdata/opt\.rs', {'C09', 'C10'}),
+    (r'dns/rdata/.*\.rs', {'C10'}),
+    (r'dns/character_string\.rs', {'C10'}),
+    (r'dns/name\.rs', {'C06', 'C03', 'C07'}),
+    (r'dns/packet\.rs', {'C04', 'C05', 'C02'}),
+    (r'dns/header\.rs', {'C08', 'C09'}),
+    (r'dns/(question|resource_record)\.rs', {'C05', 'C02'}),
+    (r'dns/wire_format\.rs', {'C02', 'C03'}),
+    (r'dns/mod\.rs', {'C18'}),
+    (r'.*', {'C02'}),
 ]
 
 def default_props(rel, fn, kind):
@@ -35,6 +52,12 @@ def default_props(rel, fn, kind):
             out |= ps
     return out
 
+def fallback_props(rel):
+    for fr, ps in FALLBACK:
+        if re.fullmatch(fr, rel):
+            return set(ps)
+    return {'C02'}
+
 D15_KEY = 'scope|dns/packet.rs|Packet::write_compressed_to|requires io_buf(old(out)).len() == 0 && io_pos(old(out)) == 0'
 D15_TEXT = ('compressed writers record absolute stream positions as pointer targets and restore the position with SeekFrom::End(0): '
             'the output is only correct when the writer starts empty at position 0 (contract precondition); the property also demands '
@@ -42,8 +65,12 @@ D15_TEXT = ('compressed writers record absolute stream positions as pointer targ
 D16_KEY = 'scope|dns/packet.rs|Packet::pkt_canon|header.opt is None ==> rcode_code(response_code) < 16'
 D16_TEXT = ('the round-trip lemma needs `opt is None ==> response code < 16`: a 12-bit response code set on a packet without EDNS data is '
             'written as its low nibble and reads back as a different code (replay/d16_demo.rs)')
+D18_KEY = 'scope|dns/wire_format.rs|WireFormat::wf_canon|values outside the image of the parser'
+D18_TEXT = ('the round-trip lemmas need wf_canon: a TXT without strings, a NULL record with empty data, an opaque NULL(code, ..) carrying the '
+            'code of a typed record and QTYPE::TYPE(TYPE::Unknown(251..255)) can be built through the public constructors but are '
+            'serialised into bytes that read back as a different value (replay/d18_demo.rs)')
 VERUS_NOTE = ("trusted: Verus/Z3, vstd specs of std, the assume_specification/external_body items listed in the evidence's trusted_base, "
-              "the syntactic normalisations R1-R12 (DESIGN.md 8.3), slices <= isize::MAX; truncating `as` casts are caught only via functional post-conditions")
+              "the syntactic normalisations R1-R15 (DESIGN.md 8.3, 8.11, 8.13), slices <= isize::MAX; truncating `as` casts are caught only via functional post-conditions")
 KANI_NOTE = "trusted: Kani/CBMC; harness reference tables written from the RFCs/IANA registry (kani/harness.rs, contracts/schema.py)"
 
 PROPS = {
@@ -51,9 +78,9 @@ PROPS = {
             'technique': 'Verus contracts on every parse-path function of the real crate (panic-freedom, termination, cursor discipline, allocation bound) + loop-free Kani harnesses for the header-peek functions',
             'text': 'proof for all inputs: every index, slice range, arithmetic operation, unwrap and loop of the parse path is a discharged Verus obligation on the real function bodies (in-situ annotation); header peeks are a complete loop-free CBMC proof over all buffers of length 0..=13',
             'note': VERUS_NOTE + '; ' + KANI_NOTE + '; the allocator and Vec growth policy are not modelled (allocation is bounded through with_capacity arguments and one push per consumed byte)'},
-    'C02': {'standin': ['roundtrip', 'txt'], 'verus': True, 'kani': ['header_write_layout'], 'scope_findings': [(D16_KEY, D16_TEXT)],
+    'C02': {'standin': ['roundtrip', 'txt'], 'verus': True, 'kani': ['header_write_layout'], 'scope_findings': [(D16_KEY, D16_TEXT), (D18_KEY, D18_TEXT)],
             'technique': 'Verus: encoder/decoder pair contracts per wire element (ghost wf_enc / wf_dec from the RFCs) on the real write_to / parse bodies, Packet::write_to proved to emit header + sections; round-trip lemmas for names; Kani for the header word',
-            'text': 'proof for all packets within limits (pkt_ok && pkt_canon): (1) Packet::write_to / build_bytes_vec emit exactly pkt_enc(p) and, as a post-condition, pkt_enc(p) decodes to p (lemma_plain_rt: per-type round-trip lemmas lifted to sections and to the message, OPT record and 12-bit response code included); (2) Packet::parse returns only packets that the message decodes to; (3) the decoding relation is a function of the bytes up to observable equality (lemma_det per type, lemma_dec_det for packets: ids, flags, opcode, response code, EDNS data, every record field). Hence whatever parse returns for build_bytes_vec(p) is observably equal to p. Not proved: that parse returns Ok on those bytes (parser completeness is proved for names only; bounded stand-in `roundtrip`), and that observable equality coincides with the derived PartialEq (assumed structural)',
+            'text': 'proof for all packets within limits (pkt_ok && pkt_canon): (1) Packet::write_to / build_bytes_vec emit exactly pkt_enc(p) and, as a post-condition, pkt_enc(p) decodes to p (lemma_plain_rt: per-type round-trip lemmas lifted to sections and to the message, OPT record and 12-bit response code included); (2) Packet::parse returns only packets that the message decodes to; (3) the decoding relation is a function of the bytes up to observable equality (lemma_det per type, lemma_dec_det for packets: ids, flags, opcode, response code, EDNS data, every record field). (4) the parser is complete with respect to the decoding relation: every parse function returns Err only if no value decodes at that position (trait clause `accepts-what-the-spec-decodes`, lifted through the list types, RData, records, sections and Packet::parse), so parse(build_bytes_vec(p)) is Ok and what it returns is observably equal to p. Not proved: that observable equality coincides with the derived PartialEq (assumed structural)',
             'note': VERUS_NOTE + '; ' + KANI_NOTE + '; SVCB / NSEC writers, len and round-trip lemmas are assumed (BTreeMap iteration / sort_by are outside Verus); known finding D16 (response code > 15 without EDNS)'},
     'C03': {'standin': ['roundtrip'], 'verus': True, 'kani': [],
             'technique': 'Verus: Name::compress_append (real body) proved against the RFC 1035 decoder with a ghost invariant on the suffix table; every compressed writer (Question, ResourceRecord incl. the RDLENGTH seek back-patch, RData, wrappers, the eight typed overrides SOA MX MINFO RP AFSDB RT HINFO ISDN, Packet::write_compressed_to) proved to emit bytes that decode to the very value written and are never longer than the plain encoding; default writers via generated per-type round-trip lemmas',
@@ -83,18 +110,18 @@ PROPS = {
             'technique': 'Kani/CBMC loop-free harnesses over all 2^96 headers / all flag-set pairs against a reference layout written from RFC 1035 4.1.1',
             'text': 'complete proof: parse, peek, write-back and the set/remove/has algebra are checked for every header word, id, count tuple, named opcode/rcode and every pair of flag sets',
             'note': KANI_NOTE + '; Packet-level accessors are thin wrappers over Header (by inspection)'},
-    'C10': {'verus': True, 'kani': ['type_table_all_codes', 'type_mnemonics'],
+    'C10': {'verus': True, 'kani': ['type_table_all_codes', 'type_mnemonics', 'r1_from_be_bytes_small', 'r1_from_be_bytes_wide', 'r1_to_be_bytes'],
             'technique': 'Verus: per-type ghost encoder/decoder generated from an RFC schema (contracts/schema.py); the real parse/write_to/len bodies are proved against them; Kani for the IANA type-code table',
             'text': 'proof for all inputs for the straight-line types: parse reads exactly the RFC layout (wf_dec), write_to emits exactly the RFC encoding (wf_enc), len equals its size; TXT OPT IPSECKEY NSAP NULL are proved against hand-written RFC specs (lists as code-length-value / length-value relations); for SVCB and NSEC only the parsers are proved (writers use BTreeMap iteration / sort_by: assumed). CharacterString::new / TryFrom<&str> are proved to refuse more than 255 bytes',
             'note': VERUS_NOTE + '; ' + KANI_NOTE},
     'C11': {'standin': ['malformed', 'roundtrip'], 'verus': True,
             'kani': ['header_reserialise_named', 'header_reserialise_reserved'],
-            'technique': 'Verus: composition of the deductive contracts, every step machine-checked: Packet::parse establishes pkt_dec(data, p); lemma_parsed_ok (per-type lemma_dec_ok lifted to sections and packets) shows that such a p satisfies the writers\' preconditions; both writers are proved to emit bytes that decode to p; lemma_dec_det shows the decoding relation is deterministic up to observable equality. Kani: loop-free proof for the header word. Stand-in on the real code for what the lemmas do not cover (parser completeness, writer success)',
-            'text': 'proof for every message of at most 65535 bytes that the parser accepts, whose re-encoding is representable (every RDATA <= 65535 bytes after pointer expansion, message <= 65535 bytes: Packet::fits) and whose header does not carry an unnamed RCODE nibble 11..15 without EDNS (known finding D11): the parsed packet p satisfies pkt_ok && pkt_canon (lemma_parsed_ok), so write_to emits pkt_enc(p) which decodes to p and write_compressed_to emits bytes that decode to p; by lemma_dec_det whatever parse returns for either output is observably equal to p (header fields, EDNS data, sections, every record field). Not proved: that the writers return Ok (depends on the io::Write implementation) and that parse returns Ok on their output (parser completeness is proved for names only) -- both exercised by the bounded stand-in. Kani (complete): header words with named opcode/rcode are re-serialised bit-exactly; reserved ones are not (D11)',
+            'technique': 'Verus: composition of the deductive contracts, every step machine-checked: Packet::parse establishes pkt_dec(data, p); lemma_parsed_ok (per-type lemma_dec_ok lifted to sections and packets) shows that such a p satisfies the writers\' preconditions; both writers are proved to emit bytes that decode to p; lemma_dec_det shows the decoding relation is deterministic up to observable equality. Kani: loop-free proof for the header word. Stand-in on the real code for what the lemmas do not cover (writer success, derived PartialEq)',
+            'text': 'proof for every message of at most 65535 bytes that the parser accepts, whose re-encoding is representable (every RDATA <= 65535 bytes after pointer expansion, message <= 65535 bytes: Packet::fits) and whose header does not carry an unnamed RCODE nibble 11..15 without EDNS (known finding D11): the parsed packet p satisfies pkt_ok && pkt_canon (lemma_parsed_ok), so write_to emits pkt_enc(p) which decodes to p and write_compressed_to emits bytes that decode to p; by lemma_dec_det whatever parse returns for either output is observably equal to p (header fields, EDNS data, sections, every record field). parse cannot reject either output (parser completeness, see C02). Not proved: that the writers return Ok (depends on the io::Write implementation; exercised by the bounded stand-in). Kani (complete): header words with named opcode/rcode are re-serialised bit-exactly; reserved ones are not (D11)',
             'note': VERUS_NOTE + '; ' + KANI_NOTE + '; known finding D11 (reserved opcode / rcode values are rewritten); RDATA that grows beyond 65535 bytes when its compressed names are expanded cannot be re-serialised (refused since fix 9f3bf1d) and is outside the lemma (Packet::fits); SVCB / NSEC writers assumed'},
     'C16': {'standin': ['roundtrip', 'malformed'], 'verus': True, 'level': 'other', 'kani': [],
-            'technique': 'Verus: into_owned contracts (same ghost view, same serialisation) generated from the RFC schema for the typed RDATA structs and hand-written for NULL NSAP IPSECKEY, the rr_wrapper types, RData, Question, ResourceRecord; bounded stand-in on the real code for the iterator-based bodies (Name, Label, CharacterString, TXT, OPT, NSEC, SVCB) and for the Eq/Hash agreement',
-            'text': 'proof for 30+ into_owned functions: every field of the owned copy has the same view and the copy has the same wf_enc (serialises identically), given the assumed contracts of the seven iterator/Into-based bodies; bounded: those seven bodies and the clause "values that compare equal hash equally" (Name, ResourceRecord incl. records differing only in ttl / cache-flush) are exercised on the generated corpus, not proved. InstanceInformation (simple-mdns, HashSet iteration order) is not covered',
+            'technique': 'Verus: into_owned contracts (same ghost view, same serialisation) generated from the RFC schema for the typed RDATA structs and hand-written for NULL NSAP IPSECKEY TXT OPT NSEC, Name, Label, CharacterString, the rr_wrapper types, RData, Question, ResourceRecord (the Vec-of-elements bodies through normalisation R15); bounded stand-in on the real code for the Eq/Hash agreement and for SVCB::into_owned (BTreeMap)',
+            'text': 'proof for 40 into_owned functions: every field of the owned copy has the same view and the copy has the same wf_enc (serialises identically); only SVCB::into_owned is assumed. Bounded: the clause "values that compare equal hash equally" (Name, ResourceRecord incl. records differing only in ttl / cache-flush) and Clone are exercised on the generated corpus, not proved (derived impls are assumed structural). InstanceInformation (simple-mdns, HashSet iteration order) is not covered',
             'explanation': 'bounded: suites `roundtrip` (211 packets: every constructible record kind x 5 name combinations, EDNS, messages straddling 16 KiB) and `malformed` (accepted variants). Not a proof.',
             'note': 'public API only; simple-mdns InstanceInformation clause of C16 is not decided'},
     'C12': {'standin': ['observers', 'malformed'], 'verus': True, 'kani': [],
@@ -116,7 +143,7 @@ PROPS = {
 
 ASSUMPTIONS = [
     "Verus 0.2026.09.13 / Z3 and Kani 0.68 / CBMC 6.11 are sound; vstd's specifications of std are correct",
-    "R1..R6 syntactic normalisations preserve semantics (DESIGN.md 2.3); R1 helper contracts are Kani-proved",
+    "R1..R15 syntactic normalisations preserve semantics (DESIGN.md 2.3, 8.3, 8.11, 8.13); R1 helper contracts are Kani-proved",
     "slices never exceed isize::MAX bytes (Rust language guarantee, stated as precondition of parse)",
     "std::io::Write / Seek implementations obey the write_all / seek / stream_position contract of vx/prelude/vx.rs",
     "derived PartialEq/Eq/Hash/Clone impls are structural",
